@@ -544,6 +544,21 @@ theorem world_accrue_crank_spec {c : Ctx} {b : Bank} (h : World.accrueIx c = .ok
   simp [evalChk, Ctx.env] at hc'
   exact ⟨hc', h⟩
 
+/-- **world_accrue_crank_twice_is_a_no_op**: the permissionless crank run again at the same time on the books it left — by anybody,
+    any number of times — leaves them exactly as they are (accruing twice at the same time is a no-op, as a whole instruction) -/
+theorem world_accrue_crank_twice_is_a_no_op {c : Ctx} {b : Bank} (h : World.accrueIx c = .ok b) (hb : BankOk c.b.books) :
+    World.accrueIx { c with b := { c.b with books := b } } = .ok b := by
+  unfold World.accrueIx at h ⊢
+  obtain ⟨u, hc, h⟩ := Res.bind_ok h
+  have hc2 : runChecks ({ c with b := { c.b with books := b } } : Ctx).env (checks .LendingPoolAccrueBankInterest) = .ok u := by
+    have hc' := runChecks_ok hc
+    simp only [checks, List.forall_mem_cons, List.not_mem_nil, false_imp_iff, implies_true, and_true] at hc'
+    simp [evalChk, Ctx.env] at hc'
+    cases u
+    simp [checks, runChecks, evalChk, Ctx.env, hc']
+  rw [hc2]
+  exact accrue_twice h hb
+
 end whole_instructions
 
 end Mfi.Props.C06
